@@ -175,3 +175,27 @@ def pmap(fn, items, procs=16, chunksize=64):
         return [fn(x) for x in items]
     with mp.get_context('fork').Pool(procs) as pool:
         return pool.map(fn, items, chunksize=chunksize)
+
+
+def validate_batch(ctx, module, cases, part, shards=16, env=None, timeout=900):
+    """generic batched oracle/trace validation: cases (each with 'id') are split over `shards` single-worker TLC
+    runs of spec/<module>.tla (+ .cfg), which print one <<"V", json>> verdict per case. returns {id: verdict}"""
+    if not cases:
+        return {}
+    n = min(shards, max(1, len(cases) // 4))
+    chunks = [cases[i::n] for i in range(n)]
+    files = [ctx.datafile(f'{part.replace(":", "_").replace("/", "_")}_{i}.json', ch) for i, ch in enumerate(chunks)]
+
+    def one(f):
+        e = dict(env or {}); e['TRACE_FILE'] = f
+        return ctx.tlc(module, module + '.cfg', part=part, env=e, workers=1, timeout=timeout)
+    with _TPE(max_workers=16) as ex:
+        rs = list(ex.map(one, files))
+    out = {}
+    for r in rs:
+        for rec in r.records:
+            if rec.get('_tag') == 'V':
+                out[rec['id']] = rec
+    if len(out) != len(cases):
+        raise Machinery(f'{module}: {len(out)} verdicts for {len(cases)} cases ({part})')
+    return out
